@@ -7,6 +7,8 @@
           implementation's own transcript, and a `STATS` trailer.
 -/
 import Driver.WorldDom
+import Driver.DispatchDom
+import Driver.DeriveDom
 import Std.Data.HashSet
 import Std.Data.HashMap
 open SpecsModel SpecsModel.Driver
@@ -186,4 +188,6 @@ def main : IO Unit := do
     let kinds := st.opKinds.toList.mergeSort (fun a b => a.1 ≤ b.1)
     let kindStr := " ".intercalate (kinds.map (fun p => s!"op_{p.1}={p.2}"))
     IO.println s!"STATS cases={st.cases} lines={st.lines} diffs={st.diffs} mons={st.mons} reuses={st.reuses} err_kills={st.errKills} dead_access={st.deadAccess} nested={st.nested} events={st.eventsSeen} destroyed={st.destroyedSeen} distinct={st.distinct.size} distinct_nontrivial={st.distinctNontrivial} {kindStr}"
+  | ["domain", "dispatch"] => runDispatch stdin
+  | ["domain", "derive"] => runDerive stdin
   | _ => IO.println s!"BAD unknown domain line: {first}"
